@@ -2479,8 +2479,8 @@ def _replace_lambda_with_function(source: str) -> str:
         source, find, replace, yield_match=True
     ):
         _, call_args, call_keywords, _, sign_args = template_match
-        if sign_args.kw_defaults:
-            continue
+        if sign_args.kw_defaults or sign_args.defaults:
+            continue  # called with fewer arguments, the lambda passes its defaults on
 
         expected_call_args = [
             ast.Name(id=arg.arg) for arg in sign_args.posonlyargs + sign_args.args
